@@ -471,12 +471,13 @@ func ruleGoroutines(w *World, r *Report, rule string) {
 	r.Rule(rule, "goroutine bodies passed to (*errgroup.Group).Go: the captured variables a body writes are written/read by no sibling body; a body created inside a loop writes only elements captured[idx] where idx is a per-iteration copy of the loop variable (never the variable itself, an append, or a map); the parent uses written variables only after Wait()", 9)
 	for _, f := range cmdFuncs(w) {
 		type lit struct {
-			fn     *ssa.Function
-			mc     *ssa.MakeClosure
-			goCall ssa.CallInstruction
-			inLoop bool
-			writes map[*ssa.Alloc]string // captured alloc -> how ("var", "elem")
-			reads  map[*ssa.Alloc]bool
+			fn      *ssa.Function
+			mc      *ssa.MakeClosure
+			factory *ssa.MakeClosure // the literal that built this body (closure factory), or nil
+			goCall  ssa.CallInstruction
+			inLoop  bool
+			writes  map[*ssa.Alloc]string // captured alloc -> how ("var", "elem")
+			reads   map[*ssa.Alloc]bool
 		}
 		var lits []*lit
 		var wait ssa.CallInstruction
@@ -488,11 +489,24 @@ func ruleGoroutines(w *World, r *Report, rule string) {
 				continue
 			}
 			mc, ok := c.Common().Args[1].(*ssa.MakeClosure)
+			var factory *ssa.MakeClosure
+			if !ok {
+				// a closure factory: eg.Go(worker(i)) where worker is a local literal whose single return is a literal
+				if call, isCall := c.Common().Args[1].(*ssa.Call); isCall {
+					if mc1, ok1 := call.Call.Value.(*ssa.MakeClosure); ok1 {
+						if rets := returnsOf(mc1.Fn.(*ssa.Function)); len(rets) == 1 && len(rets[0].Results) == 1 {
+							if mc2, ok2 := rets[0].Results[0].(*ssa.MakeClosure); ok2 {
+								mc, factory, ok = mc2, mc1, true
+							}
+						}
+					}
+				}
+			}
 			if !ok {
 				r.Undecided(rule, funcName(f)+":go-arg", w.instrPos(c), "errgroup.Go is not given a function literal")
 				continue
 			}
-			l := &lit{fn: mc.Fn.(*ssa.Function), mc: mc, goCall: c, inLoop: inLoopWith(c.Block()), writes: map[*ssa.Alloc]string{}, reads: map[*ssa.Alloc]bool{}}
+			l := &lit{fn: mc.Fn.(*ssa.Function), mc: mc, factory: factory, goCall: c, inLoop: inLoopWith(c.Block()), writes: map[*ssa.Alloc]string{}, reads: map[*ssa.Alloc]bool{}}
 			lits = append(lits, l)
 		}
 		if len(lits) == 0 {
@@ -500,9 +514,26 @@ func ruleGoroutines(w *World, r *Report, rule string) {
 		}
 		for _, l := range lits {
 			bind := map[*ssa.FreeVar]*ssa.Alloc{}
+			private := map[*ssa.Alloc]bool{} // variables of one factory invocation: not shared between bodies
 			for i, fv := range l.fn.FreeVars {
-				if al, ok := l.mc.Bindings[i].(*ssa.Alloc); ok {
-					bind[fv] = al
+				switch b := l.mc.Bindings[i].(type) {
+				case *ssa.Alloc:
+					bind[fv] = b
+					if b.Parent() != f {
+						private[b] = true
+					}
+				case *ssa.FreeVar:
+					// captured by the factory from the enclosing function
+					if l.factory != nil {
+						ff := l.factory.Fn.(*ssa.Function)
+						for j, ffv := range ff.FreeVars {
+							if ffv == b && j < len(l.factory.Bindings) {
+								if al, ok := l.factory.Bindings[j].(*ssa.Alloc); ok {
+									bind[fv] = al
+								}
+							}
+						}
+					}
 				}
 			}
 			key := funcName(l.fn)
@@ -526,7 +557,7 @@ func ruleGoroutines(w *World, r *Report, rule string) {
 									if ifv, ok := il.X.(*ssa.FreeVar); ok && bind[ifv] != nil {
 										ia := bind[ifv]
 										// allocated inside the loop body (per iteration) and stored once
-										if inLoopWith(ia.Block()) && len(storesTo(ia)) == 1 {
+										if (inLoopWith(ia.Block()) || private[ia]) && len(storesTo(ia)) == 1 {
 											okIdx = true
 										}
 									}
@@ -557,6 +588,10 @@ func ruleGoroutines(w *World, r *Report, rule string) {
 					}
 				}
 			})
+			for al := range private {
+				delete(l.writes, al)
+				delete(l.reads, al)
+			}
 			if l.inLoop {
 				for al, how := range l.writes {
 					if how != "elem" && bad == "" {
